@@ -375,6 +375,13 @@ inline std::string numeric_literal_to_value(
             return fmt::format("-::std::numeric_limits<{}>::infinity()", type);
         }
 
+        if(value.find_first_of(".eE") == std::string_view::npos)
+        {
+            // integer-like text (`16777217`, `010`) would become an integer
+            // (or even octal) literal, make it a floating-point one
+            return fmt::format("{}.0", value);
+        }
+
         return std::string{value};
     }
 
